@@ -1382,6 +1382,7 @@ func runC04(c *core.Ctx) core.Meta {
 	checkModifierFlags(c)
 	checkOperandsFresh(c)
 	checkOpcodeOperandsPrinted(c)
+	checkImmediateArithmeticWide(c, "R04.32", []string{instsPkg}, 1, "The branch-target annotation of the disassembly (PC + simm16 * 4 + 4) names the wrong symbol for far branches otherwise")
 	checkWidthColumn(c)
 	checkFlatOpcodes(c, t)
 	checkDSOperands(c, t)
